@@ -21,7 +21,9 @@ WEIGHTS = [("hostile", 4), ("fastlat", 3), ("plain", 2), ("multi", 1), ("event",
 
 
 def plan(tier, seed):
-    return _sim.plan_profiles(tier, seed, WEIGHTS, 7000, 80000)
+    cases = _sim.plan_profiles(tier, seed, WEIGHTS, 7000, 80000)
+    n = 1500 if tier == "quick" else 40000
+    return cases + [{"mode": "live_walk", "seed": seed, "idx": i, "cfg": {"n": 1 + i % 3, "async": i % 4 == 3}, "len": 9 + i % 6} for i in range(n)]
 
 
 def build(desc):
@@ -45,6 +47,26 @@ def build(desc):
 
 
 def run(desc):
+    if desc.get("mode") == "live_walk":
+        from . import c11
+
+        def observe(r):
+            if r.w.executor.queue:
+                return  # a response is outstanding: the trade may legitimately be PENDING / mid-update
+            m = r.w.market(r.mid)
+            if m is not None:
+                r.tr.framework = r.w.fw
+                observers.trade_accounting(r.tr, m, "book")
+
+        r = c11.walk(desc, observe)
+        out = O.Out(PROPERTY)
+        # (a restart re-creates trades from exchange data: one adopted trade per bet; replaced bets are the listed C11 finding)
+        out.violations += [dict(v, tags=dict(v["tags"], exec="Betfair", restarted=r.restarted, replaced=bool(r.replaced))) for v in r.tr.online if v["property"] == PROPERTY]
+        for k, v in r.tr.counters.items():
+            if k.startswith("rule_"):
+                out.c(k, v)
+        out.c("live_walks")
+        return out.result()
     case, snaps = build(desc)
     tr = simrun.run_case(case, observers=[observers.trade_accounting])
     out = O.Out(PROPERTY)
